@@ -417,6 +417,12 @@ def p_same(itp, name, args, kw, node, st):
     if not args:
         return Tup([], mutable=True)
     v = args[0]
+    if isinstance(v, Opaque) and v.what == 'range' and name == 'builtins.reversed' and v.args[2] in (1, -1) \
+            and v.args[0] is not None and v.args[1] is not None:
+        lo, hi, step = v.args
+        o = Opaque('range', v.taint)
+        o.args = (hi - step, lo - step, -step)          # the same integers, visited in the opposite order
+        return o
     if isinstance(v, Opaque) and v.what == 'range':
         lo, hi, step = v.args
         n = (hi - lo) if (lo is not None and hi is not None and step == 1) else None
@@ -435,6 +441,9 @@ def p_same(itp, name, args, kw, node, st):
             return Opaque('list')
         return mk(itp, name, v)
     r = n.copy()
+    if name in ('numpy.sort', 'builtins.sorted') and n.cplx is True and not n.rv:
+        # numpy / python order complex numbers lexicographically (real part first), not by angle or modulus
+        itp.events.append(('complex-sort', node, itp.cur.qname if itp.cur else ''))
     if itp.d4 and name in ('builtins.reversed', 'numpy.flipud', 'numpy.flip'):
         from . import charge as Q
         if Q.is_lin(n.q):
@@ -815,10 +824,18 @@ def p_astype(itp, name, args, kw, node, st):
         return n.copy(cplx=False)
     c = _dtype_cplx(t, None)
     r = n.copy()
+    if c is False and n.cplx is True and not n.rv and not n.zero:
+        itp.conflict('store', 'dtype', 'a complex array is cast to a real dtype: its imaginary part is discarded', node)
     if c is not None:
         r.cplx = c
         if c is False:
             r.rv = True
+        if c is True:
+            r.c64 = False
+    src_ = args[0] if isinstance(args[0], Num) else None
+    if src_ is not None and (c is None or c is True or src_.cplx is False):
+        # an element-wise cast keeps every value where it is: index maps / block maps survive
+        r.seg, r.segax, r.amap = src_.seg, src_.segax, src_.amap
     cp = kw.get('copy')
     if isinstance(cp, Const) and cp.v is False and isinstance(args[0], Num) and args[0].is_array and _dtype_noop(args[0], t):
         itp.share(r, args[0], whole=True)     # astype(copy=False) hands back the array itself when the dtype already matches
@@ -1896,6 +1913,169 @@ PRIMS['operator.sub'] = _binop_prim(ast.Sub)
 PRIMS['operator.truediv'] = _binop_prim(ast.Div)
 
 
+@prim('builtins.dict.fromkeys', 'dict.fromkeys')
+def p_fromkeys(itp, name, args, kw, node, st):
+    a = list(args)
+    if a and isinstance(a[0], Const) and isinstance(a[0].v, dict) and len(a) == 3:
+        a = a[1:]           # called on an instance
+    if not a:
+        return mk(itp, name, *args)
+    keys = a[0]
+    val = a[1] if len(a) > 1 else Const(None)
+    ks = None
+    if isinstance(keys, Const) and isinstance(keys.v, (list, tuple)):
+        ks = list(keys.v)
+    elif isinstance(keys, Tup) and all(isinstance(i, Const) for i in keys.items):
+        ks = [i.v for i in keys.items]
+    if ks is None:
+        return mk(itp, name, *args)
+    return Const({k_: val for k_ in ks})
+
+
+@prim('ndarray.__getitem__', 'list.__getitem__')
+def p_getitem(itp, name, args, kw, node, st):
+    if len(args) != 2:
+        return mk(itp, name, *args)
+    return itp.index_value(args[0], args[1], node)
+
+
+@prim('list.pop')
+def p_list_pop(itp, name, args, kw, node, st):
+    """seq.pop([i]): one item of the sequence (the last by default); the abstract sequence keeps its element type"""
+    v = args[0] if args else None
+    if isinstance(v, SeqV) and v.elem is not None:
+        return v.elem
+    if isinstance(v, Tup) and v.items:
+        if len(args) == 1:
+            return v.items[-1]
+        e = None
+        for it_ in v.items:
+            e = it_ if e is None else join(e, it_)
+        return e
+    if isinstance(v, Num) and v.is_array:
+        return itp.index_value(v, Const(-1) if len(args) == 1 else args[1], node)
+    return mk(itp, name, *args)
+
+
+@prim('itertools.islice')
+def p_islice(itp, name, args, kw, node, st):
+    """islice(seq, stop) / islice(seq, start, stop[, step]) of an array or list: the slice seq[start:stop:step]"""
+    if len(args) == 2 and isinstance(args[0], Opaque) and args[0].what in ('range', 'enumerate'):
+        # the first n items of a range (or of an enumerated range): the range cut after n steps
+        src = args[0]
+        rng = src if src.what == 'range' else (src.args[0] if len(src.args) == 1 else None)
+        if isinstance(rng, Opaque) and rng.what == 'range' and rng.args[0] is not None and rng.args[2] in (1, -1):
+            lo, hi, step = rng.args
+            n_ = _int_aff(args[1])
+            cut = Opaque('range', rng.taint | taints(args[1]))
+            new_hi = (lo + n_.scale(step)) if n_ is not None else None
+            if new_hi is not None and hi is not None:
+                # never beyond the original end
+                ok = aff_le(new_hi, hi) if step == 1 else aff_le(hi, new_hi)
+                new_hi = new_hi if ok else None
+            cut.args = (lo, new_hi, step)
+            if src.what == 'range':
+                return cut
+            o = Opaque('enumerate', src.taint)
+            o.args = [cut]
+            return o
+    if len(args) < 2 or not isinstance(args[0], (Num, Tup, SeqV)):
+        return mk(itp, name, *args)
+    none = Const(None)
+    if len(args) == 2:
+        sl = SliceV(None, args[1], None)
+    else:
+        sl = SliceV(args[1], args[2], args[3] if len(args) > 3 else None)
+    for f_ in ('lo', 'hi', 'step'):
+        v_ = getattr(sl, f_)
+        if isinstance(v_, Const) and v_.v is None:
+            setattr(sl, f_, None)
+    return itp.index_value(args[0], sl, node)
+
+
+@prim('builtins.slice')
+def p_slice(itp, name, args, kw, node, st):
+    a = [None if (isinstance(x, Const) and x.v is None) else x for x in args]
+    if len(a) == 1:
+        return SliceV(None, a[0], None)
+    if len(a) == 2:
+        return SliceV(a[0], a[1], None)
+    if len(a) == 3:
+        return SliceV(a[0], a[1], a[2])
+    return mk(itp, name, *args)
+
+
+@prim('itertools.chain')
+def p_chain(itp, name, args, kw, node, st):
+    """chain(a, b, ..): the items of a, then of b, ...: a sequence whose element is the join of the parts"""
+    e = None
+    n = Aff(0)
+    t = frozenset()
+    for a in args:
+        el, ln = itp.iter_elem(a, node, None)
+        e = el if e is None else join(e, el)
+        n = (n + ln) if (n is not None and ln is not None) else None
+        t |= taint_of(a)
+    return SeqV(e, n, t)
+
+
+@prim('itertools.accumulate')
+def p_accumulate(itp, name, args, kw, node, st):
+    """accumulate(seq[, func][, initial=]): the running fold; every item has the type of the fold (a sum by default)"""
+    if not args:
+        return mk(itp, name)
+    f = args[1] if len(args) > 1 else kw.get('func')
+    init = kw.get('initial')
+    if init is not None and isinstance(init, Const) and init.v is None:
+        init = None
+    el, n = itp.iter_elem(args[0], node, None)
+    if f is None or (isinstance(f, ExtV) and f.dotted in ('operator.add', 'operator.iadd')):
+        tot = p_sum(itp, 'builtins.sum', [args[0]] + ([init] if init is not None else []), {}, node, st)
+    else:
+        tot = init if init is not None else el
+        for _ in range(2):
+            tot = join(tot, itp.call(f, [tot, el], {}, node, st))
+    cnt = (n + 1) if (n is not None and init is not None) else n
+    return SeqV(tot, cnt, taint_of(tot))
+
+
+@prim('itertools.product')
+def p_product(itp, name, args, kw, node, st):
+    o = Opaque('product', taints(*args))
+    o.args = list(args)
+    return o
+
+
+@prim('numpy.add.reduce', 'numpy.multiply.reduce')
+def p_ufunc_reduce(itp, name, args, kw, node, st):
+    """np.add.reduce(a, axis=0) is np.sum(a, axis=0) (default axis 0, not None); multiply.reduce is np.prod"""
+    k2 = dict(kw)
+    if 'axis' not in k2 and len(args) < 2:
+        k2['axis'] = Const(0)
+    return (p_sum if 'add' in name else PRIMS['numpy.prod'])(itp, 'numpy.sum' if 'add' in name else 'numpy.prod', list(args), k2, node, st)
+
+
+@prim('builtins.setattr')
+def p_setattr(itp, name, args, kw, node, st):
+    if len(args) == 3 and isinstance(args[0], Ref) and args[0].cls is not None and isinstance(args[1], Const) and isinstance(args[1].v, str):
+        defcls = itp.cur.cls if itp.cur is not None else None
+        itp.setattr_ref(args[0], args[1].v, args[2], st, node, defcls)
+        return Const(None)
+    return mk(itp, name, *args)
+
+
+@prim('builtins.frozenset', 'builtins.set')
+def p_frozenset(itp, name, args, kw, node, st):
+    if not args:
+        return Const(())
+    v = args[0]
+    if isinstance(v, Const) and isinstance(v.v, (list, tuple, str)):
+        return Const(tuple(v.v), v.taint)
+    if isinstance(v, Tup) and all(isinstance(i, Const) for i in v.items):
+        return Const(tuple(i.v for i in v.items), v.taint)
+    return mk(itp, name, *args)
+
+
 @prim('functools.reduce')
 def p_reduce(itp, name, args, kw, node, st):
     """reduce(f, seq[, init]): the left fold; with operator.add it is sum(seq, init) term by term"""
@@ -1941,16 +2121,21 @@ def p_map(itp, name, args, kw, node, st):
     """map(f, a, b, ...): f applied to corresponding elements; the result is a sequence as long as the shortest argument"""
     if len(args) < 2:
         return mk(itp, name, *args)
-    els, ns = [], []
-    for a in args[1:]:
-        el, n = itp.iter_elem(a, node, None)
-        els.append(el)
-        ns.append(n)
+    zo = Opaque('zip', taints(*args[1:]))
+    zo.args = list(args[1:])
+    tup, n0 = itp.iter_elem(zo, node, node)            # lock step: one position symbol for all the arguments
+    els = list(tup.items) if isinstance(tup, Tup) else [tup]
     r = itp.call(args[0], els, {}, node, st)
-    n0 = ns[0]
-    if any(x is None or x != n0 for x in ns):
-        n0 = None
     out = SeqV(r, n0, taint_of(r))
+    # the position symbol the items are written in (if the lock-step form applied): a later map / zip over this sequence and
+    # arrays keeps using it, so products of corresponding items stay typed by position
+    key = (itp.cur.qname if itp.cur else '', getattr(node, 'lineno', 0), getattr(node, 'col_offset', 0), 'zip')
+    sym = itp.loopsyms.get(key)
+    ps = set(getattr(a, 'possym', None) for a in args[1:] if isinstance(a, SeqV))
+    if len(ps) == 1 and None not in ps:
+        out.possym = list(ps)[0]
+    elif sym is not None and not ps:
+        out.possym = sym
     return out
 
 
